@@ -112,6 +112,22 @@ fn side_pairs(size: Size, c: &CornerRadii) -> [(&'static str, u64, u64, u64); 4]
     ]
 }
 
+/// The KNOWN FINDING of the rounded rectangle (suffix `:confined-radii`), for the oracles of other modules:
+/// `true` iff `confine` rescales the radii of the stroke area or of the fill area of `rr` with this stroke
+/// width / alignment AND every one of the given points lies in fill_area \ stroke_area (the only place where
+/// the mechanism can show). `false` for an empty point set.
+pub(crate) fn known_finding_explains(rr: &RoundedRectangle, width: u32, align: StrokeAlignment, pts: &[Point]) -> bool {
+    let a = match align {
+        StrokeAlignment::Inside => 0,
+        StrokeAlignment::Center => 1,
+        StrokeAlignment::Outside => 2,
+    };
+    let (ins, out) = split(width, a);
+    let sa = rr.offset(out.min(i32::MAX as u32) as i32);
+    let fa = rr.offset(-(ins.min(i32::MAX as u32) as i32));
+    (radii_confined(&sa) || radii_confined(&fa)) && !pts.is_empty() && pts.iter().all(|p| fa.contains(*p) && !sa.contains(*p))
+}
+
 /// `confine_radii()` changes some radius: the radii do not fit the rectangle (the complement of the
 /// guard `CornerRadii.Fits` of the Lean theorem `fill_in_stroke_partial_fitting`).
 fn radii_confined(r: &RoundedRectangle) -> bool {
